@@ -194,7 +194,31 @@ def extra_obligations(mods, tier, seed):
     t0 = time.time()
     out = slice_obligations(mods)
     P, E, R = real("Reduino.transpile.parser"), real("Reduino.transpile.emitter"), real("Reduino")
-    fails = {"requested-iff-declared": [], "included-iff-declared": [], "instantiated-iff-declared": [], "no-duplicates": []}
+    fails = {"requested-iff-declared": [], "included-iff-declared": [], "instantiated-iff-declared": [], "no-duplicates": [], "requested-in-platformio-ini-iff-declared": []}
+    import configparser
+    import shutil
+    import tempfile
+    from pathlib import Path
+    PIO = real("Reduino.toolchain.pio")
+    board = sorted(PIO.BOARD_TO_PLATFORM)[0]
+    scratch = Path(tempfile.mkdtemp(prefix="c14-ini-"))
+    ini_cache = {}
+
+    def libs_in_ini(libs):
+        """what a PlatformIO-style reader finds under lib_deps after the real write_project rendered these libraries"""
+        key = tuple(libs)
+        if key not in ini_cache:
+            d = scratch / f"p{len(ini_cache)}"
+            d.mkdir()
+            PIO.write_project(d, "void setup(){}\nvoid loop(){}\n", "COM3", platform=PIO.BOARD_TO_PLATFORM[board], board=board, lib_deps=list(libs))
+            cp = configparser.RawConfigParser()
+            try:
+                cp.read(d / "platformio.ini", encoding="utf-8")
+                sec = cp.sections()[0]
+                ini_cache[key] = [x.strip() for x in cp.get(sec, "lib_deps", fallback="").splitlines() if x.strip()], sorted(k for k in cp.options(sec) if k not in ("platform", "board", "framework", "upload_port", "lib_deps"))
+            except Exception as ex:
+                ini_cache[key] = [f"<unreadable: {type(ex).__name__}: {ex}>"], []
+        return ini_cache[key]
     n = 0
     samples = []
     space = [(ns, nl, npar, ni2c, other, "parallel-first") for ns, nl, npar, ni2c, other in itertools.product(range(3), range(3), range(3), range(3), (False, True))]
@@ -226,12 +250,16 @@ def extra_obligations(mods, tier, seed):
             fails["instantiated-iff-declared"].append(vec)
         if len(libs) != len(set(libs)) or len(includes) != len(set(includes)):
             fails["no-duplicates"].append(vec)
+        ini_libs, stray = libs_in_ini(libs)
+        if set(ini_libs) != declared or len(ini_libs) != len(set(ini_libs)) or stray:
+            fails["requested-in-platformio-ini-iff-declared"].append(dict(vec, lib_deps_read_back=ini_libs, stray_keys=stray))
         if len(samples) < 5 and n % 37 == 0:
             samples.append(vec)
+    shutil.rmtree(scratch, ignore_errors=True)
     dt = round(time.time() - t0, 3)
     for k, f in fails.items():
         out.append({"name": f"C14/vectors/{k}", "status": "discharged" if not f else "sat", "backend": "enum",
-                    "where": f"over all {n} presence/multiplicity vectors: {k}", "time": dt / 4,
+                    "where": f"over all {n} presence/multiplicity vectors: {k}", "time": dt / 5,
                     "replay": {"failing": len(f), "examples": f[:3]}, "replay_confirmed": bool(f)})
     # interface selection in the parser: i2c_addr present <=> interface i2c (any constant address, incl. 0)
     t1 = time.time()
